@@ -26,6 +26,9 @@ CLAIMED = {
  "C07": ("proof", "A3 byte-sequence extraction + A7 canonical-form comparison + A2 accept-iff-length rule",
          "Page::new's byte sequence is extracted symbolically ([id,0x10,0,0] ++ zero fill to data_bytes ++ 0xFF fill to total_bytes) and the size/index/bit formulas are compared in canonical polynomial form with the specification; Page::from_bytes has exactly one test (len == total_bytes) and stores the given bytes unmodified; as_bytes is a shared borrow of them; equality is the derived one. Distinct pixels never sharing a bit is lemma L3.",
          TB + "Lemma L3.", "DESIGN.md 4 C07"),
+ "C08": ("model_checking", "product of the two extracted automata (A8 controller graph x A1 sign table) over an abstract sign state, to a fixpoint; reference-free",
+         "Decides the control plane and the reassembly shape, and says so: from every abstract sign state reachable under arbitrary traffic (fixpoint of the extracted sign table) and for both flip styles, the extracted configure automaton ends Ok with the sign in ConfigReceived, no pages, the requested type, clean counters; send_pages then ends Ok in PageLoaded/ShowingPages with the matching return value and the stored pages in sync with the pages sent (ghost relations on counter, buffer and page list); show/load-next move a manual sign and leave an automatic one; configure_if_needed likewise from the prior states the property allows. Bit-exact page bytes follow by composition (C09.O2, C13.O2, C07.O3; lemma L4), not re-derived.",
+         TB + "Abstraction of data-dependent conditions by ghost relations (counter equality, buffer == page in flight); pages have the requested type's size; lemma L4.", "DESIGN.md 4 C08"),
  "C09": ("proof", "A8 automaton extraction + A3 term-shape rules on the transfer routine",
          "On the extracted automata of configure and send_pages: data follows the request only on the own-address ack; each SendData term is Offset(trunc16(i*16)) + Data(chunk) with (i, chunk) from the same item.chunks(16).enumerate(), items taken from the caller's iterator; the counter variable is 0 after the ack, +1 per accepted chunk, and is what DataChunksSent announces; the result query follows; configure sends once(self.sign_type.to_bytes()), send_pages maps pages to as_bytes.",
          TB + "std contracts of chunks/enumerate/Clone of the item iterator. Exact within the property's 16-bit bound.", "DESIGN.md 4 C09"),
